@@ -144,6 +144,39 @@ def execute_lemma(E):
         E.prove('execute:valid-read-code', True)
 
 
+GOT = {}
+
+
+def _factory_get(E, I, *args, **kw):
+    # DeviceInformationFactory.get(control, read_code, object_id) is decided by the get.* lemmas; here only what execute hands to it and does with its answer
+    a = list(args)
+    if len(a) == 4:
+        a = a[1:]          # classmethod called through the class: cls first
+    GOT['args'] = a
+    GOT['answer'] = {0x00: b'answer'}
+    return GOT['answer']
+
+
+def execute_valid_lemma(E):
+    """every request with a read code 1..4 and ANY object id 0..255 (0xFF included) is answered with the factory's objects for exactly that read code and object id"""
+    from .client import Custom
+    rc, oid = E.int('read_code', 1, 5), E.int('object_id', 0, 256)
+    req = E.obj('pymodbus.mei_message.ReadDeviceInformationRequest', read_code=rc, object_id=oid, **C.BASE)
+    GOT.clear()
+    out = E.attempt(lambda: E.method(req, 'execute', None))
+    E.prove('execute:no-exception', out.ok)
+    if not out.ok:
+        return
+    resp = out.value
+    E.prove('execute:valid-request-is-answered-with-device-information', E.classname(resp) == 'ReadDeviceInformationResponse')
+    if E.classname(resp) != 'ReadDeviceInformationResponse':
+        return
+    if E.mode == 'symbolic':
+        E.prove('execute:asks-the-factory-for-that-read-code-and-object-id', 'args' in GOT and L.And(GOT['args'][1] == rc, GOT['args'][2] == oid))
+        E.prove('execute:answers-with-what-the-factory-returned', resp.information is GOT.get('answer'))
+    E.prove('execute:response-carries-the-read-code', resp.read_code == rc)
+
+
 def get_units():
     us = []
     for rc in (1, 2, 3, 4):
@@ -160,4 +193,7 @@ def get_units():
     for m in (1, 3):
         us.append(Unit('%s/pure.%dobjects' % (PROP, m), pure_lemma(m), ['C20', 'C02'], functions=[MEI + 'ReadDeviceInformationResponse.encode']))
     us.append(Unit('%s/execute' % PROP, execute_lemma, [PROP], functions=[MEI + 'ReadDeviceInformationRequest.execute']))
+    from .client import Custom
+    us.append(Unit('%s/execute.valid' % PROP, execute_valid_lemma, [PROP], contracts=(Custom(DEV + 'DeviceInformationFactory.get', _factory_get),),
+                   functions=[MEI + 'ReadDeviceInformationRequest.execute']))
     return us
